@@ -38,18 +38,18 @@ Fixpoint scan_block (star : bool) (s : list N) : option (list N) :=
   end.
 Definition consumed (s rest : list N) : list N := firstn (length s - length rest) s.
 
-(* one block; fuel = number of characters + 1.  Result: tokens, the first error if any, and the attribute-mode flag afterwards *)
-Fixpoint lex_block (fuel : nat) (attr : bool) (cur : loc) (s : list N) : list ptok * option plexerr * bool :=
-  match fuel with O => ([], None, attr) | S f =>
+(* one step of the lexer loop on a non-empty rest, given how the rest of the input is lexed *)
+Definition lex_step (rec : bool -> loc -> list N -> list ptok * option plexerr * bool) (attr : bool) (cur : loc) (s : list N)
+  : list ptok * option plexerr * bool :=
   match s with
   | [] => ([], None, attr)
   | c :: r =>
     let simple (t : token) := let e := adv cur c in
-      let '(ts, er, a) := lex_block f attr e r in ((cur, t, e) :: ts, er, a) in
+      let '(ts, er, a) := rec attr e r in ((cur, t, e) :: ts, er, a) in
     let double (d : N) (t2 t1 : token) (attr' : bool) :=
       match r with
-      | c2 :: r2 => if c2 =? d then let e := adv (adv cur c) c2 in let '(ts, er, a) := lex_block f attr' e r2 in ((cur, t2, e) :: ts, er, a)
-                    else let e := adv cur c in let '(ts, er, a) := lex_block f attr' e r in ((cur, t1, e) :: ts, er, a)
+      | c2 :: r2 => if c2 =? d then let e := adv (adv cur c) c2 in let '(ts, er, a) := rec attr' e r2 in ((cur, t2, e) :: ts, er, a)
+                    else let e := adv cur c in let '(ts, er, a) := rec attr' e r in ((cur, t1, e) :: ts, er, a)
       | [] => let e := adv cur c in ([(cur, t1, e)], None, attr')
       end in
     if c =? 40 then simple TkLParen else if c =? 41 then simple TkRParen
@@ -65,7 +65,7 @@ Fixpoint lex_block (fuel : nat) (attr : bool) (cur : loc) (s : list N) : list pt
       match scan_string false r [] with
       | inl (content, rest) =>
         let e := adv_all cur (consumed s rest) in
-        let '(ts, er, a) := lex_block f attr e rest in ((cur, TkStr content, e) :: ts, er, a)
+        let '(ts, er, a) := rec attr e rest in ((cur, TkStr content, e) :: ts, er, a)
       | inr eaten => ([], Some (cur, LxUnterminatedString, adv_all (adv cur c) eaten), attr)
       end
     else if c =? 47 then
@@ -83,11 +83,11 @@ Fixpoint lex_block (fuel : nat) (attr : bool) (cur : loc) (s : list N) : list pt
           let '(text, rest) := span_while (fun x => negb (x =? 10)) after in
           let e := adv_all start text in
           let text' := match rev text with 13 :: t => rev t | _ => text end in
-          let '(ts, er, a) := lex_block f attr e rest in
+          let '(ts, er, a) := rec attr e rest in
           if isdoc then ((start, TkDoc text', e) :: ts, er, a) else (ts, er, a)
         else if c2 =? 42 then
           match scan_block false r2 with
-          | Some rest => lex_block f attr (adv_all cur (consumed s rest)) rest
+          | Some rest => rec attr (adv_all cur (consumed s rest)) rest
           | None => ([], Some (cur, LxUnterminatedBlockComment, adv_all cur s), attr)
           end
         else ([], Some (cur, LxUnknownSymbol [47], adv cur c), attr)
@@ -98,21 +98,24 @@ Fixpoint lex_block (fuel : nat) (attr : bool) (cur : loc) (s : list N) : list pt
       | c2 :: _ => if is_letter c2 then
                      let '(w, rest) := span_while is_alnum_ r in
                      let e := adv_all (adv cur c) w in
-                     let '(ts, er, a) := lex_block f attr e rest in ((cur, TkIdent w, e) :: ts, er, a)
+                     let '(ts, er, a) := rec attr e rest in ((cur, TkIdent w, e) :: ts, er, a)
                    else ([], Some (cur, LxUnknownSymbol [92], adv cur c), attr)
       | [] => ([], Some (cur, LxUnknownSymbol [92], adv cur c), attr)
       end
     else if is_letter c then
       let '(w, rest) := span_while is_alnum_ s in
       let e := adv_all cur w in
-      let '(ts, er, a) := lex_block f attr e rest in ((cur, word_token attr w, e) :: ts, er, a)
+      let '(ts, er, a) := rec attr e rest in ((cur, word_token attr w, e) :: ts, er, a)
     else if is_digit c then
       let '(w, rest) := span_while is_alnum_ s in
       let e := adv_all cur w in
-      let '(ts, er, a) := lex_block f attr e rest in ((cur, TkInt w, e) :: ts, er, a)
-    else if is_ws c then lex_block f attr (adv cur c) r
+      let '(ts, er, a) := rec attr e rest in ((cur, TkInt w, e) :: ts, er, a)
+    else if is_ws c then rec attr (adv cur c) r
     else ([], Some (cur, LxUnknownSymbol [c], adv cur c), attr)
-  end end.
+  end.
+(* one block; fuel = number of characters + 1.  Result: tokens, the first error if any, and the attribute-mode flag afterwards *)
+Fixpoint lex_block (fuel : nat) (attr : bool) (cur : loc) (s : list N) : list ptok * option plexerr * bool :=
+  match fuel with O => ([], None, attr) | S f => lex_step (lex_block f) attr cur s end.
 
 (* all blocks in order; the attribute flag carries over, lexing stops at the first error *)
 Fixpoint lex_blocks (bs : list (loc * list N)) (attr : bool) : list ptok * option plexerr :=
